@@ -298,6 +298,14 @@ impl SystemHardware {
         Self::from_platform(PlatformFacade::Fallback(&BUILD_TARGET_PLATFORM))
     }
 
+    /// Verification seam (`--cfg folo_verif` only): the public handle over the real Linux
+    /// platform reading a caller-supplied filesystem. Leaks the platform (see `VerifPlatform`).
+    #[cfg(all(folo_verif, target_os = "linux", not(miri)))]
+    #[must_use]
+    pub fn verif_from_linux(platform: crate::pal::linux_verif::VerifPlatform) -> Self {
+        Self::from_platform(PlatformFacade::Target(platform.leak()))
+    }
+
     /// Returns the unique ID of the hardware instance this handle refers to.
     pub(crate) fn hardware_id(&self) -> HardwareId {
         self.inner.hardware_id
